@@ -90,7 +90,7 @@ def _gen_add_route(rng):
     return {'self': N.describe(ns), 'route': new}
 
 
-@contract('stone.ir.api:ApiNamespace.add_route', properties=['C19', 'C02'])
+@contract('stone.ir.api:ApiNamespace.add_route', properties=['C19', 'C20', 'C02'])
 class add_route:
     """the by-name route tables are exactly the tables of the route list: the new
     route is appended, registered under (name, version), and under name when version 1"""
